@@ -8,6 +8,7 @@ import (
 
 	"github.com/jawher/mow.cli/internal/container"
 	"github.com/jawher/mow.cli/internal/flow"
+	"github.com/jawher/mow.cli/internal/verifhook"
 )
 
 /*
@@ -97,6 +98,7 @@ In case of an incorrect usage, and depending on the configured ErrorHandling pol
 it may return an error, panic or exit
 */
 func (cli *Cli) Run(args []string) error {
+	verifhook.Point("cli.Run")
 	if err := cli.doInit(); err != nil {
 		panic(err)
 	}
